@@ -398,6 +398,21 @@ def one_case(ctx, ds, shape, mask_kind=None, which=None):
     base = {"ds": ds, "shape": list(shape) if shape else None, "mask": mask, "idx_dtype": np.dtype(dt).name}
     from pyflwdir import streams, core
 
+    if shape is not None and getattr(flw, "cache", True) and rng.random() < 0.3:
+        # queries of the same family that read (and must not touch) the order map the object may hold: sub-basins by
+        # stream order inside a mask, stream features above a minimum order
+        try:
+            u = rng.random()
+            pm = np.array([rng.random() < 0.6 for _ in range(n)], dtype=bool).reshape(shape)
+            if u < 0.5:
+                flw.subbasins_streamorder(min_sto=rng.choice([-2, 1, 2]), mask=pm)
+            elif u < 0.8:
+                flw.streams(min_sto=rng.choice([2, 3]))
+            else:
+                flw.stream_order(mask=pm)
+            ctx.count("prior-query-of-the-order-family")
+        except Exception:  # noqa: BLE001  (never decides anything)
+            pass
     if which == "strahler":
         spell = rng.choice(["strahler", "strahler", "Strahler", "STRAHLER", None])
         kw = {} if spell is None else {"type": spell}
